@@ -131,12 +131,14 @@ theorem C19_dryrun_monotone :
 theorem C19_kept : executeKeepsSQLOnDryRun = true := by decide
 
 /-- the build part does not look at DryRun: the flag is read only in the listed functions
-    (executor guards, Execute's reset, Session/ToSQL plumbing, and the DryRun branches of the
-    compound finishers), never inside clause building / statement building code -/
+    (executor guards, Execute's reset, Session/ToSQL plumbing, the DryRun branches of the
+    compound finishers, and — on a tree carrying the repair of F25 — the explicit transaction API
+    `DB.Begin`/`DB.Commit`/`DB.Rollback`), never inside clause building / statement building code -/
 theorem C19_build_ignores_dryrun :
     ∀ u ∈ dryRunUses,
       u ∈ [("callbacks.go", "processor.Execute"),
            ("finisher_api.go", "DB.Save"), ("finisher_api.go", "DB.Row"), ("finisher_api.go", "DB.Rows"),
+           ("finisher_api.go", "DB.Begin"), ("finisher_api.go", "DB.Commit"), ("finisher_api.go", "DB.Rollback"),
            ("gorm.go", "DB.Session"),
            ("callbacks/create.go", "Create"), ("callbacks/delete.go", "Delete"),
            ("callbacks/query.go", "Query"), ("callbacks/raw.go", "RawExec"),
@@ -201,8 +203,10 @@ theorem C19_dry_effects_scope :
 
 set_option maxRecDepth 8192 in
 /-- outside package callbacks a DryRun test guards only: Execute's SQL/Vars reset, Save's fallback
-    INSERT (a second statement, decided on the first one's result), Row's log line, and the
-    migrator's introspection handle -/
+    INSERT (a second statement, decided on the first one's result), Row's log line, the
+    migrator's introspection handle, and — on a tree carrying the repair of F25 — the pool's `BeginTx`
+    in `DB.Begin` and the `ErrInvalidTransaction` of `DB.Commit`/`DB.Rollback` (transaction control,
+    never statement building) -/
 theorem C19_root_dry_guard_scope :
     ∀ x ∈ dryRootGuarded,
       x ∈ [("processor.Execute", "Reset", "stmt.SQL"),
@@ -211,6 +215,7 @@ theorem C19_root_dry_guard_scope :
            ("DB.Save", "Session", "tx"),
            ("DB.Row", "Error", "db.Logger"),
            ("DB.Row", "Error", "ErrDryRunModeUnsupported"),
+           ("DB.Begin", "BeginTx", "beginner"), ("DB.Commit", "AddError", "db"), ("DB.Rollback", "AddError", "db"),
            ("Migrator.GetQueryAndExecTx", "Session", "m.DB")] := by
   decide
 
@@ -235,75 +240,138 @@ theorem C19_rowquery_both_branches :
   decide
 
 /-- MAIN (model of `processor.Execute`): for every pipeline, every state, every valuation of the other
-    conditions and every expansion depth: DryRun ⇒ the build part's output equals the real run's build
-    part output, no driver call is issued, and SQL/Vars are kept -/
-theorem C19_model_dry_equals_real (st : RunSt) (env : String → Bool) (fuel : Nat) (hd : st.dryRun = true) :
+    conditions and every expansion depth, and whichever `DB.Begin` the tree has (`b`): DryRun ⇒ the build
+    part's output equals the real run's build part output, no driver call is issued, and SQL/Vars are kept -/
+theorem C19_model_dry_equals_real (b : Bool) (st : RunSt) (env : String → Bool) (fuel : Nat) (hd : st.dryRun = true) :
     ∀ p ∈ pipelines,
-      (execute dryFns p.2 st env fuel).built = (execute dryFns p.2 st.real env fuel).built ∧
-      (execute dryFns p.2 st env fuel).sent = [] ∧
-      (execute dryFns p.2 st env fuel).keepsSQL = true := by
+      (execute b dryFns p.2 st env fuel).built = (execute b dryFns p.2 st.real env fuel).built ∧
+      (execute b dryFns p.2 st env fuel).sent = [] ∧
+      (execute b dryFns p.2 st env fuel).keepsSQL = true := by
   intro p _
-  have h := execute_dry_equals_real dryFns C19_dry_guard_scope C19_dry_driver_guarded p.2 st env fuel hd
+  have h := execute_dry_equals_real b dryFns C19_dry_guard_scope C19_dry_driver_guarded p.2 st env fuel hd
   refine ⟨h.1, h.2, ?_⟩
   simp [execute, hd, C19_kept]
 
 /-- … and under ToSQL's flags (DryRun + SkipDefaultTransaction) no transaction call either -/
-theorem C19_model_tosql_silent (st : RunSt) (env : String → Bool) (fuel : Nat)
+theorem C19_model_tosql_silent (b : Bool) (st : RunSt) (env : String → Bool) (fuel : Nat)
     (hd : st.dryRun = true) (hs : st.skipDefaultTx = true) :
     ∀ p ∈ pipelines,
-      (execute dryFns p.2 st env fuel).sent = [] ∧ (execute dryFns p.2 st env fuel).txs = [] := by
+      (execute b dryFns p.2 st env fuel).sent = [] ∧ (execute b dryFns p.2 st env fuel).txs = [] := by
   intro p hp
-  refine ⟨(C19_model_dry_equals_real st env fuel hd p hp).2.1, ?_⟩
+  refine ⟨(C19_model_dry_equals_real b st env fuel hd p hp).2.1, ?_⟩
   unfold execute
   simp only
-  exact pipelineTrace_cls_nil dryFns .tx "!db.Config.SkipDefaultTransaction" C19_dry_tx_guarded p.2 st env
-    (atomVal_skipTx st env hs) fuel
+  split
+  · exact pipelineTrace_cls_nil dryFns .tx "!db.Config.SkipDefaultTransaction" C19_dry_tx_guarded p.2 st env
+      (atomVal_skipTx st env hs) fuel
+  · rfl
 
 /-- non-vacuity: the real create pipeline has a non-empty build part and does send -/
 example :
-    (execute dryFns ((pipelines.find? (fun p => p.1 = "create")).get!.2)
+    (execute true dryFns ((pipelines.find? (fun p => p.1 = "create")).get!.2)
       { dryRun := false, skipDefaultTx := false, err := false, skipHooks := false, hasSchema := true }
       (fun _ => true) 4).built ≠ [] ∧
-    (execute dryFns ((pipelines.find? (fun p => p.1 = "create")).get!.2)
+    (execute true dryFns ((pipelines.find? (fun p => p.1 = "create")).get!.2)
       { dryRun := false, skipDefaultTx := false, err := false, skipHooks := false, hasSchema := true }
-      (fun _ => true) 4).sent ≠ [] := by
+      (fun _ => true) 4).sent ≠ [] ∧
+    (execute true dryFns ((pipelines.find? (fun p => p.1 = "create")).get!.2)
+      { dryRun := false, skipDefaultTx := false, err := false, skipHooks := false, hasSchema := true }
+      (fun _ => true) 4).txs ≠ [] := by
   decide
 
-/-! ## Findings on the unchanged tree -/
+/-! ## Findings
+
+  F25 (explicit transaction under ToSQL) is repairable: the model takes which `DB.Begin` exists as the
+  parameter `beginDry` (regenerated fact `Gen.beginSkipsDryRun`).  The counterexample and the partial
+  theorem are about the model WITHOUT the repair; `C19_dryrun_no_tx_full` is the full-strength statement
+  for the model WITH it; `C19_tosql_explicit_tx_current_tree` discharges the obligation on either tree. -/
 
 def tosqlSt : RunSt := { dryRun := true, skipDefaultTx := true, err := false, skipHooks := false, hasSchema := true }
 
-/-- F25: an explicit user transaction on the ToSQL handle reaches the driver (`DB.Begin`'s BeginTx call
-    site is dominated by neither DryRun nor SkipDefaultTransaction) -/
+/-- the finisher of the witness of F25: `tx.Transaction(func(t) { t.Create(…) })` on the ToSQL handle -/
+def f25Witness : FinSpec := { name := "Transaction{Create}", pipeline := "create", batched := false, explicitTx := true }
+
+/-- F25 (model without the repair): an explicit user transaction on the ToSQL handle reaches the driver
+    (`DB.Begin`'s BeginTx call site is dominated by neither DryRun nor SkipDefaultTransaction) -/
 theorem C19_tosql_explicit_tx_counterexample :
-    finisherTx dryFns { name := "Transaction{Create}", pipeline := "create", batched := false, explicitTx := true }
-      tosqlSt (fun _ => true) 4 ≠ [] := by
+    finisherTx false dryFns f25Witness tosqlSt (fun _ => true) 4 ≠ [] := by
   decide
 
-/-- … and without an explicit transaction a ToSQL finisher makes no transaction call at all -/
-theorem C19_tosql_silent_partial (f : FinSpec) (st : RunSt) (env : String → Bool) (fuel : Nat)
+/-- … and without an explicit transaction a ToSQL finisher makes no transaction call at all
+    (whichever `DB.Begin` exists) -/
+theorem C19_tosql_silent_partial (b : Bool) (f : FinSpec) (st : RunSt) (env : String → Bool) (fuel : Nat)
     (hx : f.explicitTx = false) (hd : st.dryRun = true) (hs : st.skipDefaultTx = true) :
-    finisherTx dryFns f st env fuel = [] := by
+    finisherTx b dryFns f st env fuel = [] := by
   unfold finisherTx
   simp only [hx, Bool.false_and, Bool.false_eq_true, if_false, List.nil_append]
   cases hf : pipelines.find? (fun p => p.1 = f.pipeline) with
   | none => rfl
-  | some p => exact (C19_model_tosql_silent st env fuel hd hs p (List.mem_of_find?_eq_some hf)).2
+  | some p => exact (C19_model_tosql_silent b st env fuel hd hs p (List.mem_of_find?_eq_some hf)).2
+
+/-- FULL STRENGTH (model with the repair of F25): in DryRun mode — by configuration, by session or under
+    ToSQL, with or without SkipDefaultTransaction — NO finisher makes a transaction call, explicit user
+    transaction (`Transaction` / `Begin`) included: the hypothesis `explicitTx = false` is gone (and so
+    is `skipDefaultTx = true`: not even the empty implicit transaction is opened) -/
+theorem C19_dryrun_no_tx_full (f : FinSpec) (st : RunSt) (env : String → Bool) (fuel : Nat)
+    (hd : st.dryRun = true) :
+    finisherTx true dryFns f st env fuel = [] := by
+  have hr := txReaches_dry st hd
+  unfold finisherTx
+  simp only [hr, Bool.and_false, Bool.false_eq_true, if_false, List.nil_append]
+  cases hf : pipelines.find? (fun p => p.1 = f.pipeline) with
+  | none => rfl
+  | some p => exact execute_txs_nil_of_not_reaches true dryFns p.2 st env fuel hr
+
+/-- … and nothing at all reaches the driver under ToSQL's flags with the repair: no statement from the
+    pipeline and no transaction call of the finisher, for every finisher incl. explicit transactions -/
+theorem C19_tosql_silent_full (f : FinSpec) (p : String × List CbReg) (st : RunSt) (env : String → Bool) (fuel : Nat)
+    (hp : pipelines.find? (fun q => q.1 = f.pipeline) = some p)
+    (hd : st.dryRun = true) :
+    (execute true dryFns p.2 st env fuel).sent = [] ∧ finisherTx true dryFns f st env fuel = [] :=
+  ⟨(C19_model_dry_equals_real true st env fuel hd p (List.mem_of_find?_eq_some hp)).2.1,
+   C19_dryrun_no_tx_full f st env fuel hd⟩
+
+/-- the regenerated flag is the syntactic fact about `Gen.txSites` it claims to be: `DB.Begin` has `BeginTx`
+    call sites and all of them carry the atom `!tx.DryRun` exactly when the flag is set -/
+theorem C19_begin_flag_matches_sites :
+    beginSkipsDryRun =
+      (!(txSites.filter (fun s => s.fn = "DB.Begin" ∧ s.method = "BeginTx")).isEmpty &&
+       (txSites.filter (fun s => s.fn = "DB.Begin" ∧ s.method = "BeginTx")).all (fun s => "!tx.DryRun" ∈ s.guards)) ∧
+    beginTxSites = (txSites.filter (fun s => s.fn = "DB.Begin" ∧ s.method = "BeginTx")).length := by
+  decide
+
+/-- F25 on the tree that exists (`Gen.beginSkipsDryRun`): either the repair is present and the full-strength
+    statement holds of the model of this tree, or it is absent and the witness still reaches the driver -/
+theorem C19_tosql_explicit_tx_current_tree :
+    (beginSkipsDryRun = true ∧
+      ∀ (f : FinSpec) (st : RunSt) (env : String → Bool) (fuel : Nat), st.dryRun = true →
+        finisherTx beginSkipsDryRun dryFns f st env fuel = []) ∨
+    (beginSkipsDryRun = false ∧
+      finisherTx beginSkipsDryRun dryFns f25Witness tosqlSt (fun _ => true) 4 ≠ []) := by
+  cases h : beginSkipsDryRun with
+  | true => exact Or.inl ⟨rfl, fun f st env fuel hd => C19_dryrun_no_tx_full f st env fuel hd⟩
+  | false => exact Or.inr ⟨rfl, C19_tosql_explicit_tx_counterexample⟩
+
+/-- non-vacuity of the full-strength statement: without DryRun the repaired model still opens the explicit
+    transaction (the repair does not remove `Begin`) -/
+example : finisherTx true dryFns f25Witness { tosqlSt with dryRun := false } (fun _ => true) 4 ≠ [] := by
+  decide
 
 /-- F26: a batched finisher exposes nothing although its real run builds (and sends) statements -/
 theorem C19_batched_exposes_nothing_counterexample :
-    exposed dryFns { name := "CreateInBatches", pipeline := "create", batched := true, explicitTx := false }
+    ∀ b : Bool,
+    exposed b dryFns { name := "CreateInBatches", pipeline := "create", batched := true, explicitTx := false }
       tosqlSt (fun _ => true) 4 = [] ∧
-    (execute dryFns ((pipelines.find? (fun p => p.1 = "create")).get!.2) tosqlSt.real (fun _ => true) 4).built ≠ [] := by
+    (execute b dryFns ((pipelines.find? (fun p => p.1 = "create")).get!.2) tosqlSt.real (fun _ => true) 4).built ≠ [] := by
   decide
 
 /-- … every other finisher exposes exactly the build part of the real run of its pipeline -/
-theorem C19_exposed_is_built_partial (f : FinSpec) (p : String × List CbReg) (st : RunSt) (env : String → Bool)
+theorem C19_exposed_is_built_partial (b : Bool) (f : FinSpec) (p : String × List CbReg) (st : RunSt) (env : String → Bool)
     (fuel : Nat) (hb : f.batched = false) (hp : pipelines.find? (fun q => q.1 = f.pipeline) = some p)
     (hd : st.dryRun = true) :
-    exposed dryFns f st env fuel = (execute dryFns p.2 st.real env fuel).built := by
+    exposed b dryFns f st env fuel = (execute b dryFns p.2 st.real env fuel).built := by
   unfold exposed
   simp only [hb, Bool.false_eq_true, if_false, hp]
-  exact (C19_model_dry_equals_real st env fuel hd p (List.mem_of_find?_eq_some hp)).1
+  exact (C19_model_dry_equals_real b st env fuel hd p (List.mem_of_find?_eq_some hp)).1
 
 end Gorm
